@@ -21,6 +21,7 @@ class Gen:
         self.rev = reverse_sets
         self.uniq = uniq
         self.lanelet_pool = None  # when set, obstacle->lanelet id sets are drawn from these (existing) lanelet ids
+        self.far = False  # when set: positions with a large first and a small second coordinate (ratio > 1000)
 
     # ------------------------------------------------------------------------------------------------ primitives
     def S(self, items):
@@ -58,6 +59,8 @@ class Gen:
         return r.uniform(-scale, scale)
 
     def pos(self, scale=100.0):
+        if self.far:
+            return np.array([self.r.choice([2000.0, 5.0e5, -7.5e4]) + self.real(scale), self.real(3.0)])
         return np.array([self.real(scale), self.real(scale)])
 
     def angle(self):
